@@ -261,7 +261,8 @@ func runC18(r *mon.Run) {
 		"runs a seeded sequence over the 22 Context operations and 18 read-only Decimal/BigInt method groups with private destinations. " +
 		"Deciding oracle: the Go race detector (binary built with -race; reports collected from its log); second: every concurrent result " +
 		"equals the sequential result computed AFTER the concurrent phase (so first touches of lazily initialised state happen " +
-		"concurrently); third: shared operands, Contexts and the package shared-state fingerprint unchanged at each quiescent point. " +
+		"concurrently), including a power-of-ten pressure phase in which 16 goroutines hammer shared operands whose coefficient lengths " +
+		"and exponent gaps are distinct but congruent modulo 128 and 512 (torn or mis-keyed caches return wrong values without any data race); third: shared operands, Contexts and the package shared-state fingerprint unchanged at each quiescent point. " +
 		"distinct_nontrivial = distinct (op, op) pairs observed in overlapping calls plus distinct steps that overlapped another call."
 	r.Assumptions = []string{"the race detector reports unsynchronised conflicting accesses between code paths the workload ran concurrently; its bounded per-word history can miss a race in one round, hence many rounds",
 		"destinations are never shared (the contract forbids it)"}
@@ -402,6 +403,7 @@ func runC18(r *mon.Run) {
 		t.R.Extra("race_reports", blocks)
 		t.R.Extra("race_reports_distinct", len(distinct))
 		if blocks > 0 {
+			t.Count("race-reported")
 			keys := []string{}
 			for k, v := range distinct {
 				keys = append(keys, fmt.Sprintf("%dx %s", v, k))
@@ -415,6 +417,107 @@ func runC18(r *mon.Run) {
 		t.Sample(map[string]interface{}{"rounds": rounds, "steps_per_goroutine": stepsPer, "calls": atomic.LoadInt64(&totalCalls), "calls_started_while_another_was_in_flight": atomic.LoadInt64(&overlapped),
 			"distinct_overlapping_op_pairs": len(pairSet), "distinct_start_orders": len(startOrders), "race_reports": blocks})
 	})
+	// Power-of-ten pressure: shared operands whose coefficient lengths, and
+	// whose exponent gaps, are different but congruent modulo 128 and 512, used
+	// in tight loops by all goroutines. Any cache of computed powers of ten that
+	// is keyed, hashed or published incorrectly hands a goroutine the wrong
+	// power here even when every access is atomic (no data race to report).
+	pressureRounds := int(r.N(5, 60))
+	var pressureCalls, pressureMismatch int64
+	r.Serial("pow10-pressure", func(t *mon.T) {
+		for round := 0; round < pressureRounds; round++ {
+			rr := rng.New(r.Seed, "c18-pressure", int64(round))
+			runtime.GOMAXPROCS(16)
+			base := int64(130 + rr.Intn(380))
+			var ops []*apd.Decimal
+			for i := int64(0); i < 5; i++ {
+				for _, stride := range []int64{128, 512} {
+					n := base + stride*i
+					cf, _ := new(big.Int).SetString(gen.Digits(rr, n), 10)
+					ops = append(ops, br.ToApd(dec.D{Form: dec.Finite, Neg: rr.Bool(), C: cf, E: -rr.Range(0, n)}))
+				}
+			}
+			gbase := int64(129 + rr.Intn(300))
+			var far []*apd.Decimal
+			for i := int64(0); i < 6; i++ {
+				far = append(far, br.ToApd(dec.D{Form: dec.Finite, Neg: rr.Bool(), C: big.NewInt(rr.Range(1, 99999)), E: gbase + 128*i}))
+				far = append(far, br.ToApd(dec.D{Form: dec.Finite, Neg: rr.Bool(), C: big.NewInt(rr.Range(1, 99999)), E: -(gbase + 512*i)}))
+			}
+			small := br.ToApd(dec.FromInt(rr.Range(1, 999), 0))
+			ctx := br.Context(dec.Ctx{P: 100, Emin: -6143, Emax: 6144, Mode: "half_even"}, 0)
+			wide := br.Context(dec.Ctx{P: 4000, Emin: -100000, Emax: 100000, Mode: "half_even"}, 0)
+			exec := func(kind, i, j int) string {
+				var d apd.Decimal
+				switch kind {
+				case 0:
+					return fmt.Sprint(ops[i].NumDigits())
+				case 1:
+					res, _ := ctx.Round(&d, ops[i])
+					return meaningful(br.FromApd(&d)) + br.FlagNames(res)
+				case 2:
+					res, _ := wide.RoundToIntegralValue(&d, far[j])
+					return fmt.Sprint(d.Coeff.BitLen(), d.NumDigits(), d.Exponent, br.FlagNames(res))
+				case 3:
+					res, _ := wide.Add(&d, far[j], small)
+					return fmt.Sprint(d.NumDigits(), d.Exponent, d.Coeff.BitLen(), br.FlagNames(res))
+				case 4:
+					return fmt.Sprint(ops[i].Cmp(ops[(i+1)%len(ops)]), far[j].Cmp(small))
+				case 5:
+					res, _ := wide.Quantize(&d, far[j], 0)
+					return fmt.Sprint(d.NumDigits(), d.Coeff.BitLen(), br.FlagNames(res))
+				default:
+					var ip, fp apd.Decimal
+					ops[i].Modf(&ip, &fp)
+					return fmt.Sprint(ip.NumDigits(), fp.NumDigits(), ip.Coeff.BitLen())
+				}
+			}
+			const G, iters = 16, 250
+			type rec struct {
+				kind, i, j int
+				out        string
+			}
+			recs := make([][]rec, G)
+			barrier := make(chan struct{})
+			var wg sync.WaitGroup
+			for g := 0; g < G; g++ {
+				wg.Add(1)
+				go func(g int) {
+					defer wg.Done()
+					gr := rng.New(r.Seed, fmt.Sprintf("c18-pressure-%d", round), int64(g))
+					<-barrier
+					for it := 0; it < iters; it++ {
+						k, i, j := gr.Intn(7), gr.Intn(len(ops)), gr.Intn(len(far))
+						recs[g] = append(recs[g], rec{k, i, j, exec(k, i, j)})
+					}
+				}(g)
+			}
+			close(barrier)
+			wg.Wait()
+			for g := range recs {
+				for _, rc := range recs[g] {
+					atomic.AddInt64(&pressureCalls, 1)
+					t.Eval()
+					if want := exec(rc.kind, rc.i, rc.j); want != rc.out {
+						atomic.AddInt64(&pressureMismatch, 1)
+						t.Fail("concurrent-result-differs", map[string]interface{}{"phase": "pow10-pressure", "round": round, "kind": rc.kind, "operand": rc.i, "far": rc.j,
+							"concurrent": clip(rc.out), "sequential": clip(want), "coefficient_digits_base": base, "exponent_gap_base": gbase})
+					}
+				}
+			}
+			t.Count("pressure-rounds")
+		}
+		runtime.GOMAXPROCS(runtime.NumCPU())
+		if blocks, distinct, first := parseRaceLogs(logPrefix); blocks > int(r.Hist("race-blocks-before-pressure")) {
+			_ = distinct
+			if len(first) > 3000 {
+				first = first[:3000]
+			}
+			if r.Hist("race-reported") == 0 {
+				t.Fail("data-race", map[string]interface{}{"phase": "pow10-pressure", "reports": blocks, "first_report": first})
+			}
+		}
+	})
+	r.Extra("pow10_pressure_calls", atomic.LoadInt64(&pressureCalls))
 	r.Extra("calls", atomic.LoadInt64(&totalCalls))
 	r.Extra("overlapping_calls", atomic.LoadInt64(&overlapped))
 	r.Extra("distinct_overlapping_op_pairs", len(pairSet))
@@ -425,6 +528,7 @@ func runC18(r *mon.Run) {
 	for _, op := range c18Ops {
 		r.Require("op/"+op, 20)
 	}
+	r.Require("pressure-rounds", 5)
 }
 
 func indexOf(l []string, s string) int {
